@@ -146,6 +146,26 @@ def shutdown (g : GrpcContract) (t0 wait : Nat) (reg : Registry) : ShutdownResul
     returns := reg.map (fun p => (p.1, serverReturn g t0 wait p.2))
     ret := shutdownReturn g t0 wait (reg.map (·.2)) }
 
+/-! ## The registry lock
+
+`proxy.Shutdown` starts with `mu.Lock()`. Its first effect — the snapshot, after which listeners get closed —
+happens when it *gets* the lock, not when it is called. Everybody else who takes `mu` (`serve`, `Close`,
+`CloseProxy`, called by the tcp-dynamic refresher when the route of a dynamic port disappears) is assumed to
+hold it for O(1) bookkeeping only (map read/insert/delete, the non-blocking `srv.Close()`, a log line), i.e.
+for zero ticks: `heldUntil ≤ called`. The assumption is tied to the source by the regenerated list of calls made
+between `mu.Lock()` and `mu.Unlock()` in each of these functions (`C18Facts.registry_lock_only_bookkeeping`). -/
+
+/-- Tick at which a `proxy.Shutdown` called at `called` gets the registry lock, when somebody holds it until
+`heldUntil`. -/
+def lockAcquired (called heldUntil : Nat) : Nat := max called heldUntil
+
+/-- `proxy.Shutdown(wait)` *called* at tick `called` while the lock is held until `heldUntil`. -/
+def shutdownCalled (g : GrpcContract) (called heldUntil wait : Nat) (srvs : List Server) : Time :=
+  shutdownReturn g (lockAcquired called heldUntil) wait srvs
+
+/-- `proxy.CloseProxy(addr)`: `srv.Close()` (listeners and connections closed at once) and the entry deleted. -/
+def closeProxy (addr : String) (reg : Registry) : Registry := reg.filter (fun p => p.1 != addr)
+
 /-! ## The process around it: exit handler and the `tcp-dynamic` refresher (main.go)
 
 `main.go`'s exit handler sets `shuttingDown`, deregisters, sleeps the grace period and calls
